@@ -311,6 +311,20 @@ PROPS = {
         floors={"any": {"histories": 20000, "deaths": 100000, "callbacks_expected": 30000, "cascaded_deaths_of_alpha_maps": 3000, "attaches": 20000, "attach_refusals_expected": 5000, "quiescent_points": 20000, "labels:attach": 7}},
         assumptions=["a program never uses an image it holds no reference on", "overlapping source/destination storage in a composite is outside the statement and not generated"],
     ),
+    "C16": dict(
+        level="exploration", monitors={"mon_thread": {"sources": ["mon_thread.c", "vf_req.c", "ref_pixel.c", "ref_ops.c", "vf.c"], "link": ["-lpthread"]}},
+        runs=[dict(name="tsan", monitor="mon_thread", flavour="tsan", cases={"quick": 288, "thorough": 9600}, shards=8),
+              dict(name="plain", monitor="mon_thread", flavour="plain", cases={"quick": 960, "thorough": 96000}, shards=8),
+              dict(name="tsan-cold-start", monitor="mon_thread", flavour="tsan", config="cold", cases={"quick": 64, "thorough": 3200}, shards=8),
+              dict(name="plain-cold-start", monitor="mon_thread", flavour="plain", config="cold", cases={"quick": 160, "thorough": 16000}, shards=8)],
+        rule="one case = one round: the main thread builds 10 shared source/mask images (bits with transforms/filters/repeats/alpha maps/indexed palettes, solid, gradients) and 3 shared regions and uses each once, "
+             "then T in {2,4,8,16} streams of 8..48 calls (composite with private images, composite/trapezoids/glyphs with a shared source or mask, scanlines longer than the general path's stack buffer in the 8-bit and the floating-point pipeline, "
+             "fill_boxes, region algebra with a shared read-only operand, rasterize/composite_trapezoids, private glyph caches, blt/fill) on thread-private destinations are run alone on the main thread and then concurrently "
+             "(barrier start, sched_yield/spins between calls in every other round); oracles: ThreadSanitizer data-race reports (library and monitor both instrumented) and the per-call result digests of the concurrent run "
+             "against the serial run; cold-start rounds fork a fresh process whose first library calls are made by T threads at once (no shared images) and compare with a forked serial run; evaluations = calls issued concurrently and compared; a cell = (call kind, result digest)",
+        floors={"any": {"rounds": 200, "cold_start_rounds": 100, "concurrent_calls": 40000, "composite-shared-source": 5000, "composite-long-scanline": 2000, "trapezoids": 2000, "glyphs": 1000, "region-algebra": 2000, "labels:threads": 6}},
+        assumptions=["only the interleavings that happened are judged", "shared images are used once by the main thread before the threads start (the statement's precondition)"],
+    ),
     "C17": dict(
         level="exploration", monitors={"mon_glyph": {"sources": ["mon_glyph.c", "vf_req.c", "ref_pixel.c", "ref_ops.c", "vf.c"]}},
         runs=[dict(name="hw4", monitor="mon_glyph", flavour="plain", config="hw4", defs=["-DPIXMAN_VERIF_GLYPH_HIGH_WATER=4"], cases={"quick": 6000, "thorough": 600000}),
@@ -425,6 +439,11 @@ MANIFEST_TEXT["C20"] = dict(
     technique="history-vs-ownership-model runtime monitor (unref return values, destroy-callback counts and timing, refusal of alpha-map chains) with link-time allocation accounting at quiescent points and AddressSanitizer for double free / use after free",
     level_text="Exploration: 10^5..10^7 random programs of create/ref/unref/set_alpha_map/setters/draw/glyph-cache calls over a pool of up to 12 images; every unref and attachment judged against the model, every program ends in a quiescent point where live library blocks must be zero",
     level_note="trusted: the ownership model in harness/mon_life.c; the malloc wrappers in harness/vf_alloc.c")
+
+MANIFEST_TEXT["C16"] = dict(
+    technique="ThreadSanitizer (gcc -fsanitize=thread, library and monitor instrumented) over concurrent streams on private destinations with shared read-only sources, plus a serial-vs-concurrent result-digest comparison per call",
+    level_text="Exploration: 10^2..10^4 rounds of 2..16 threads x 8..48 calls; only executed interleavings are judged, rounds are repeated with and without injected yields and race reports are keyed by the top pixman function",
+    level_note="trusted: gcc's ThreadSanitizer runtime; the stream generator in harness/mon_thread.c")
 
 NOT_CLAIMED = {p: "monitor not built yet in this round (design in DESIGN.md section 6); no claim is made" for p in
                ["C%02d" % i for i in range(1, 21)]}
